@@ -132,6 +132,9 @@ class Context(interfaces.RequestProvider):
         self.serversite = serversite
 
         self.request_interfaces: list[interfaces.RequestInterface] = []
+        # Done as soon as shutdown has started; requests whose remote is
+        # still being determined then are failed rather than kept waiting
+        self._shutting_down = self.loop.create_future()
 
         self.client_credentials = client_credentials or CredentialsMap()
         self.server_credentials = server_credentials or CredentialsMap()
@@ -512,6 +515,9 @@ class Context(interfaces.RequestProvider):
 
         self.log.debug("Shutting down context")
 
+        if not self._shutting_down.done():
+            self._shutting_down.set_result(None)
+
         done, pending = await asyncio.wait(
             [
                 asyncio.create_task(
@@ -542,9 +548,31 @@ class Context(interfaces.RequestProvider):
     async def find_remote_and_interface(self, message):
         if message.remote is None:
             raise error.MissingRemoteError()
+        if self._shutting_down.done():
+            raise error.LibraryShutdown()
         for ri in self.request_interfaces:
             if await ri.recognize_remote(message):
                 return ri
+
+        # Determining the remote can take long (name resolution, connection
+        # setup), and none of the interfaces knows of the request yet: it is
+        # the context's shutdown that has to end the search.
+        search = self.loop.create_task(
+            self._determine_remote_and_interface(message),
+            name="Determining remote and interface of %r" % message,
+        )
+        try:
+            await asyncio.wait(
+                [search, self._shutting_down], return_when=asyncio.FIRST_COMPLETED
+            )
+        finally:
+            if not search.done():
+                search.cancel()
+        if search.done():
+            return search.result()
+        raise error.LibraryShutdown()
+
+    async def _determine_remote_and_interface(self, message):
         for ri in self.request_interfaces:
             if remote := await ri.determine_remote(message):
                 message.remote = remote
